@@ -171,6 +171,7 @@ func main() {
 	show := flag.String("show", "", "render the document of this file and print it")
 	traceF := flag.String("trace", "", "print the page trace (first pagination round) of the document of this file")
 	outDoc := flag.String("o", "", "output file for -shrink")
+	shrinkVerdict := flag.String("shrink-verdict", "", "with -shrink: minimise while the page trace has this verdict (stuck-resume, stuck-footnote) instead of while the render fails")
 	htmlF := flag.String("html", "", "render a raw HTML file (engine/hints from -engine/-hints)")
 	engineF := flag.String("engine", "pango", "text engine for -html")
 	hintsF := flag.Bool("hints", false, "presentational hints for -html")
@@ -284,6 +285,33 @@ func main() {
 		if err != nil {
 			fmt.Println(err)
 			os.Exit(2)
+		}
+		if *shrinkVerdict != "" {
+			// minimise while the page trace keeps its verdict (stuck-resume / stuck-footnote): no render needed
+			verdict := func(x *Doc) Outcome {
+				o := pool.Trace(x, *tracePages, 5000)
+				v := "none:" + o.Status
+				if o.Status == "ok" && o.Trace != nil {
+					v = o.Trace.Verdict()
+				}
+				return Outcome{Status: "trace", Site: v}
+			}
+			want := verdict(d)
+			if want.Site != *shrinkVerdict {
+				fmt.Printf("the page trace of the document has verdict %s\n", want.Site)
+				os.Exit(1)
+			}
+			sd, calls := Shrink(d, want, verdict, 3000)
+			fmt.Printf("verdict=%s\nshrunk %d -> %d pieces in %d traces\n---- html\n%s\n", want.Site, d.Size(), sd.Size(), calls, sd.HTML())
+			for i, u := range sd.UserCSS() {
+				fmt.Printf("---- user sheet %d\n%s\n", i, u)
+			}
+			fmt.Printf("---- hints=%v engine=%s testua=%v\n", sd.Hints, sd.Engine, sd.TestUA)
+			if *outDoc != "" {
+				b, _ := json.MarshalIndent(corpusFile{Comment: "page trace " + want.Site, Doc: sd}, "", " ")
+				os.WriteFile(*outDoc, b, 0o644)
+			}
+			return
 		}
 		o := pool.Run(d)
 		if o.Status == "ok" {
